@@ -125,6 +125,33 @@ def _cfg_attr_kani(text):
     return "\n".join(out)
 
 
+def harness_closure(files):
+    """Harness files needed to compile `files`: themselves plus every harness module they refer to
+    as `crate::<path>::<modname>` (transitively).  Keeps the blast radius of a harness that no
+    longer compiles (e.g. because a stubbed function changed its signature) to the properties that
+    actually use it."""
+    rev = {}
+    for hname, (rel, modname) in HARNESS_FILES.items():
+        path = "crate::" + rel[len("src/"):-len(".rs")].replace("/", "::") + "::" + modname
+        rev[path] = hname
+    need = set()
+    todo = [f for f in files]
+    while todo:
+        f = todo.pop()
+        if f in need:
+            continue
+        need.add(f)
+        hp = os.path.join(KANI_DIR, f)
+        if not os.path.exists(hp):
+            continue
+        txt = open(hp).read()
+        for m in re.finditer(r'crate::[A-Za-z0-9_:]*?::verif[A-Za-z0-9_]*', txt):
+            tok = m.group(0)
+            if tok in rev and rev[tok] not in need:
+                todo.append(rev[tok])
+    return need
+
+
 def copy_repo(dest):
     if os.path.exists(dest):
         shutil.rmtree(dest)
